@@ -650,7 +650,13 @@ func (e *Env) evalBinary(t *ast.BinaryExpr) (Val, error) {
 	}
 	a, b = e.coerceNil(a, b)
 	if a.T == nil || b.T == nil {
-		return Val{}, fmt.Errorf("nil == nil")
+		if t.Op == token.EQL {
+			return Val{tTrue, types.Typ[types.Bool]}, nil
+		}
+		if t.Op == token.NEQ {
+			return Val{tFalse, types.Typ[types.Bool]}, nil
+		}
+		return Val{}, fmt.Errorf("nil compared with nil")
 	}
 	if a.T.Sort != b.T.Sort {
 		return Val{}, fmt.Errorf("sort mismatch in %s: %s vs %s", t.Op, a.T.Sort, b.T.Sort)
@@ -1143,6 +1149,9 @@ func (e *Env) evalLocs(x ast.Expr) ([]modLoc, error) {
 	if id, ok := x.(*ast.Ident); ok {
 		if id.Name == "heap" {
 			return []modLoc{{kind: "heap"}}, nil
+		}
+		if id.Name == "userdata" {
+			return []modLoc{{kind: "userdata"}}, nil
 		}
 		if _, ok := e.v.C.GhostVars[id.Name]; ok {
 			return []modLoc{{kind: "ghostvar", gname: id.Name}}, nil
